@@ -46,6 +46,16 @@ CLAIMS['C07'] = dict(
     note='Trusted: clang 14 front end/CFG and -Wformat checker.',
     ref='5 (C07), 4 (A8)')
 
+CLAIMS['C08'] = dict(
+    technique='table agreement against the manual parsed at run time, guarded-by queries on the CFG, dead-store lint',
+    text=('Decides: the operator table equals the manual\'s (symbols incl. aliases, arity, operand types, rank order '
+          'isomorphism) and the function table likewise (names, argument count and types); every row dispatches to the '
+          'like-named handler; each documented domain limit has an error guard with exactly the documented bound; the '
+          'integer division operators exclude 0 and MIN/-1; no operator/function body ignores a computed result; string '
+          'positions are bounded before use. Numerical results and literal syntax are not decided.'),
+    note='Trusted: clang 14 front end/CFG; the manual (doc/assembler-usage.md) as oracle for the tables; the table of documented domains in rules/c08.py transcribed from the manual.',
+    ref='5 (C08), 4 (A2, A3)')
+
 NA_REASONS = {}
 
 
